@@ -194,9 +194,11 @@ PROPS['C13'] = {
     'assumptions': ['schedules are sampled (barrier start, 2..16 goroutines), not enumerated', 'the Go race detector reports the races that occur in the sampled schedules',
                     '"caller\'s policy" = exported fields and slice headers; the unexported arch cache may be filled in'],
     'required_classes': {'all': ['same-name-entries-merged', 'interleaved-with-other-policies', 'shared-slices', 'concurrent', 'text', 'processes', 'text-forms-across-processes', 'modified-between-compilations:default', 'modified-between-compilations:group-action',
-                                 'modified-between-compilations:retarget-other-architecture', 'modified-between-compilations:share-groups-other-architecture']},
+                                 'modified-between-compilations:retarget-other-architecture', 'modified-between-compilations:share-groups-other-architecture',
+                                 'caller-slices-share-one-backing-array', 'first-use-concurrent']},
     'units': [
         {'test': 'TestC13History', 'checks': {'quick': 8000, 'thorough': 400000}, 'shards': {'quick': 8, 'thorough': 16}, 'timeout': {'quick': 300, 'thorough': 3000}},
+        {'test': 'TestC13FirstUse', 'checks': {'quick': 480, 'thorough': 24000}, 'shards': {'quick': 8, 'thorough': 16}, 'helpers': [{'name': 'racefirst', 'race': True, 'env': 'racefirst'}], 'timeout': {'quick': 300, 'thorough': 1500}},
         {'test': 'TestC13Concurrent', 'race': True, 'checks': {'quick': 1200, 'thorough': 60000}, 'shards': {'quick': 6, 'thorough': 8},
          'env': {'GORACE': 'halt_on_error=1'}, 'timeout': {'quick': 400, 'thorough': 3000}},
         {'test': 'TestC13Text', 'checks': {'quick': 2000, 'thorough': 50000}, 'timeout': {'quick': 120, 'thorough': 600}},
@@ -251,7 +253,7 @@ PROPS['C12'] = {
         {'test': 'TestC12Tables', 'timeout': {'quick': 300, 'thorough': 300}},
         {'test': 'TestC12CrossTable', 'timeout': {'quick': 300, 'thorough': 300}},
         {'test': 'TestC12ArchMetadata', 'checks': {'quick': 5000, 'thorough': 2000000}, 'timeout': {'quick': 300, 'thorough': 1200}},
-        {'test': 'TestC12Processes', 'helpers': ['digest'], 'timeout': {'quick': 300, 'thorough': 600}},
+        {'test': 'TestC12Processes', 'helpers': ['digest', {'name': 'digest', 'goarch': '386'}], 'timeout': {'quick': 300, 'thorough': 600}},
         {'test': 'TestC12TablesStable', 'checks': {'quick': 3000, 'thorough': 400000}, 'shards': {'quick': 8, 'thorough': 16}, 'timeout': {'quick': 300, 'thorough': 1500}},
     ],
 }
@@ -470,4 +472,7 @@ for _pid, _target in (('C06', 'FuzzC06Labels'), ('C07', 'FuzzC07Validation'), ('
     PROPS[_pid]['units'].append({'fuzz': _target, 'tiers': ('thorough',), 'fuzztime': {'thorough': '90s'}, 'timeout': {'thorough': 600},
                                  'helpers': ['kverify'] if _pid == 'C05' else []})
 
+PROPS['C07']['units'].append({'test': 'TestC07JsWasm', 'timeout': {'quick': 600, 'thorough': 900}})
+PROPS['C01']['units'].append({'test': 'TestC01OtherProcesses', 'helpers': ['digest', {'name': 'digest', 'goarch': '386'}], 'timeout': {'quick': 300, 'thorough': 900}})
+PROPS['C02']['units'].append({'test': 'TestC02OtherProcesses', 'helpers': ['digest', {'name': 'digest', 'goarch': '386'}], 'timeout': {'quick': 300, 'thorough': 900}})
 PROPS['C01']['units'].append({'test': 'TestC01Sweep', 'tiers': ('thorough',), 'shards': {'thorough': 16}, 'timeout': {'thorough': 3000}})
